@@ -50,6 +50,27 @@ theorem stepC_found (c : Chain) (s : Stk) (op : Op) (h : find c = some s) :
     stepC c op = (put c (step s op).1, (step s op).2) := by
   simp [stepC, h]
 
+theorem run_refines (s : Stk) (ops : List Op) :
+    abs (run s ops).1 = (specRun (abs s) ops).1 ∧ (run s ops).2 = (specRun (abs s) ops).2 := by
+  induction ops generalizing s with
+  | nil => simp [run, specRun]
+  | cons op ops ih =>
+    have h1 := step_refines s op
+    have h2 := ih (step s op).1
+    simp only [run, specRun]
+    rw [← h1.1, ← h1.2]
+    exact ⟨h2.1, by rw [h2.2]⟩
+
+theorem opOuts_map_out (l : List Out) : opOuts (l.map SOut.out) = l := by
+  induction l with
+  | nil => rfl
+  | cons x l ih => simp [opOuts, ih]
+
+theorem opOuts_map_skip {α : Type} (l : List α) : opOuts (l.map fun _ => SOut.skip) = [] := by
+  induction l with
+  | nil => rfl
+  | cons x l ih => simp [opOuts, ih]
+
 /-- The refinement relation between a result of the chain model (started from a chain `c` in which the stack
 is found) and a result of the plain stack. -/
 def Refines (c : Chain) (r : Chain × List SOut × Bool) (q : Spec × List SOut × Bool) : Prop :=
@@ -95,6 +116,12 @@ theorem execItem_refines (i : Item) (c : Chain) (s : Stk) (h : find c = some s) 
       · simp [execItem, hk', hr, put_find c s h]
       · simp [specItem, hk']
       · simp [execItem, specItem, hk', hr]
+  | hold ok ops =>
+    have hr := run_refines s ops
+    refine ⟨(run s ops).1, ?_, ?_, ?_⟩
+    · simp [execItem, h]
+    · simp [specItem, hr.1]
+    · simp [execItem, specItem, h, hr.2]
 theorem execItems_refines (is : Items) (c : Chain) (s : Stk) (h : find c = some s) :
     Refines c (execItems c is) (specItems (abs s) is) := by
   cases is with
@@ -137,6 +164,7 @@ theorem opOuts_item_skips (i : Item) : opOuts i.skips = [] := by
   | failing o => rfl
   | try_ i => simpa [Item.skips] using opOuts_item_skips i
   | scope k b => simpa [Item.skips, opOuts] using opOuts_items_skips b
+  | hold ok ops => simp [Item.skips, opOuts, opOuts_map_skip]
 theorem opOuts_items_skips (is : Items) : opOuts is.skips = [] := by
   cases is with
   | nil => rfl
@@ -166,6 +194,10 @@ theorem specItem_trace (i : Item) (s : Spec) : ∃ tr, IsTrace s i.ops (specItem
     · have hk' : k.runsBody = false := by simpa using hk
       refine ⟨[], by simp, by simp [specItem, hk', specRun], ?_⟩
       simp [specItem, hk', specRun, opOuts, opOuts_items_skips]
+  | hold ok ops =>
+    refine ⟨ops, by simp [Item.ops], by simp [specItem], ?_⟩
+    simp only [specItem]
+    split <;> simp [opOuts, opOuts_map_out]
 theorem specItems_trace (is : Items) (s : Spec) : ∃ tr, IsTrace s is.ops (specItems s is) tr := by
   cases is with
   | nil => exact ⟨[], by simp [Items.ops], by simp [specItems, specRun], by simp [specItems, specRun, opOuts]⟩
